@@ -294,6 +294,9 @@ class Roots:
                 return self.roots(newv, p2[i:])
             if i < len(p2) and i < len(elems) and elems[i][0] == p2[i][0] and elems[i][0] in ("f", "i") and elems[i][1] != p2[i][1]:
                 return self.roots(prev, p2)
+            if i == len(p2) and len(elems) == i + 1 and elems[i][0] == "ix":
+                # whole array read after `a[i] = x` with a variable index: keep which index was written
+                return {"X:upd(%s;[@%s];%s)" % ("|".join(sorted(self.roots(prev, p2))), "|".join(sorted(self.roots(elems[i][1]))), "|".join(sorted(self.roots(newv, ()))))}
             # overlapping / unknown index: both
             return self.roots(prev, p2) | self.roots(newv, ()) | {"X:partial-update"}
         if k == "mut":
